@@ -23,7 +23,7 @@ ASSUMPTIONS = [
     "a value supplied for a non-settable parameter (constant, reserved, matching request) may be rejected or ignored (C08)",
     "requested vs decoded uses the value equivalence of DESIGN 2.5 (True == 1, 3.0 == 3, bytes == bytearray are equal)",
 ]
-MUST_HIT = ["minmax-sweep:A_UNICODE2STRING", "minmax-sweep:A_BYTEFIELD", "sweep:A_UINT32", "sweep:A_INT32:2C", "sweep:A_INT32:1C", "sweep:A_INT32:SM", "sweep:BCD", "outcome:rejected",
+MUST_HIT = ["mut:request-too-short", "mut:tablekey", "mut:tstruct", "minmax-sweep:A_UNICODE2STRING", "minmax-sweep:A_BYTEFIELD", "sweep:A_UINT32", "sweep:A_INT32:2C", "sweep:A_INT32:1C", "sweep:A_INT32:SM", "sweep:BCD", "outcome:rejected",
             "outcome:accepted", "mut:int-out-of-range", "mut:struct-missing-required", "mut:struct-unknown-param",
             "mut:mux", "mut:bytes", "mut:str", "mut:wrong-type", "mut:list"]
 
@@ -51,6 +51,39 @@ def _strip_none(v):
     if isinstance(v, list):
         return [_strip_none(x) for x in v]
     return v
+
+
+def _drop_unrepresentable(params, values):
+    """content given to a multiplexer case that has no structure cannot be represented by anything in the PDU
+    (section 9: ignoring it is not a misrepresentation): it is not compared"""
+    if not isinstance(values, dict):
+        return values
+    out = dict(values)
+    for p in params:
+        v = out.get(p.get("name"))
+        dop = p.get("dop")
+        if v is None or not isinstance(dop, dict):
+            continue
+        k = dop["k"]
+        if k == "struct":
+            out[p["name"]] = _drop_unrepresentable(dop["params"], v)
+        elif k in ("sfield", "dlfield", "eopf", "emfield") and isinstance(v, (list, tuple)):
+            out[p["name"]] = [_drop_unrepresentable(dop["st"]["params"], it) for it in v]
+        elif k == "mux" and isinstance(v, (list, tuple)) and len(v) == 2:
+            spec, content = v
+            sel = None
+            if isinstance(spec, str):
+                sel = next((c for c in dop["cases"] if c["name"] == spec), None)
+                if sel is None and dop.get("default") and dop["default"]["name"] == spec:
+                    sel = dop["default"]
+            elif isinstance(spec, int) and not isinstance(spec, bool):
+                sel = next((c for c in dop["cases"] if c["lo"] <= spec <= c["hi"]), None) or dop.get("default")
+            if sel is not None:
+                if sel.get("st") is None:
+                    out[p["name"]] = [spec, None]
+                else:
+                    out[p["name"]] = [spec, _drop_unrepresentable(sel["st"]["params"], content)]
+    return out
 
 
 def judge(ld, case, values, res, cls, label) -> list:
@@ -86,7 +119,7 @@ def judge(ld, case, values, res, cls, label) -> list:
                 return []
             return [_fail("accepted-but-undecodable", f"{label}: encode returned {pdu.hex()} which does not decode: "
                                                        f"{type(e).__name__}: {e}", case, {"label": label})]
-    want = _strip_none(mh.to_odx_value(values))
+    want = _strip_none(mh.to_odx_value(_drop_unrepresentable(case["msg"]["params"], values)))
     mut = case.get("mutation") or {}
     if mut.get("kind") == "linear":
         # a LINEAR method with an integer internal type quantises: the admissible decoded values are the
@@ -107,6 +140,13 @@ def judge(ld, case, values, res, cls, label) -> list:
             if not ok:
                 return [_fail("silent-misrepresentation", f"{label}: requested {req!r}, decoded {got!r}, admissible "
                               f"internal values {cands} (pdu {pdu.hex()})", case, {"label": label})]
+            want = mutvals.put(want, tuple(mut["path"]), mutvals.DELETE)
+        elif dop is not None and isinstance(req, (int, float)) and math.isfinite(req) and dop["dct"]["bt"] in refcodec.FLOAT_TYPES \
+                and isinstance(got, (int, float)) and not isinstance(got, bool):
+            # float-coded LINEAR: any number (True is the number 1) is converted; equal up to binary32 precision
+            if not math.isclose(float(got), float(req), rel_tol=1e-6, abs_tol=1e-6):
+                return [_fail("silent-misrepresentation", f"{label}: requested {req!r}, decoded {got!r} (pdu {pdu.hex()})",
+                              case, {"label": label})]
             want = mutvals.put(want, tuple(mut["path"]), mutvals.DELETE)
     d = supplied_vs_decoded(want, dec)
     if d:
@@ -261,6 +301,16 @@ def mutated_case():
     def s(draw):
         base = draw(gen.message_case())
         allsites = list(mutvals.sites(base["msg"]["params"], base["values"]))
+        mrs = [p for p in base["msg"]["params"] if p["pk"] == "matchreq"]
+        if mrs and base.get("request") is not None and draw(st.integers(0, 9)) < 3:
+            # the triggering request is an input of a response's encoder too: one that ends before or inside
+            # the range a MATCHING-REQUEST-PARAM echoes cannot be represented
+            rq = bytes(base["request"])
+            need = max(p["rpos"] + p["n"] for p in mrs)
+            cut = draw(st.integers(0, max(0, need - 1)))
+            label = "request-too-short:" + ("inside" if any(p["rpos"] < cut < p["rpos"] + p["n"] for p in mrs) else "before")
+            return {"msg": base["msg"], "values": base["values"], "request": rq[:cut], "features": base["features"],
+                    "mutation": {"path": [], "kind": "request", "label": label}}
         # prefer leaf sites over the (always present) top-level struct site
         idx = draw(st.integers(0, len(allsites) - 1))
         path, kind, info = allsites[idx]
@@ -296,7 +346,7 @@ def eval_case(case, res: core.ShardResult | None = None) -> list:
     cls = set()
     lab0 = label.split(":")[0]
     cls.add("mut:" + lab0)
-    for grp in ("mux", "bytes", "str", "list", "sfield", "struct", "tablekey", "tstruct"):
+    for grp in ("mux", "bytes", "str", "list", "sfield", "struct", "tablekey", "tstruct", "request-too-short"):
         if lab0.startswith(grp):
             cls.add("mut:" + grp)
     if "wrong-type" in label or lab0 in ("linear", "float", "text"):
